@@ -181,7 +181,7 @@ ALLOWED_GLOBAL_STATE = {
 MUT = {"append", "extend", "update", "add", "setdefault", "pop", "clear", "insert", "remove", "discard", "popitem", "sort", "reverse"}
 
 
-@scenario("config:frame-scan", "src/jasm (all modules)", ["C14", "C13"], doc="process-global mutable state written by the code (static scan)")
+@scenario("config:frame-scan", "src/jasm (all modules)", ["C14", "C13", "C19"], doc="process-global mutable state written by the code (static scan)")
 def frame_scan():
     found = []
     mutated = set()
@@ -237,7 +237,7 @@ def frame_scan():
     extra = sorted(set(x for x in found if x not in ALLOWED_GLOBAL_STATE))
     ob = simple_ob("FRAME:global-state", "src/jasm (all modules)", "FRAME",
                    "the only process-global state written by JASM is the JASMConfig singleton (reloaded by every compilation) and the logger",
-                   True if not extra else None, ["C14", "C13"], detail=f"further global / class-level / cached state: {extra} -- its independence of earlier runs is not proved")
+                   True if not extra else None, ["C14", "C13", "C19"], detail=f"further global / class-level / cached state: {extra} -- its independence of earlier runs is not proved")
     return [ob]
 
 
@@ -451,7 +451,10 @@ def shell():
     return obs
 
 
-@scenario("disasm:routes", "jasm.match.ProducerBuilder.build", ["C15", "C17"],
+PIO = ["C15", "C08", "C16", "C07", "C06", "C09", "C10"]      # what reaches the parser is the input's text, of THIS call
+
+
+@scenario("disasm:routes", "jasm.match.ProducerBuilder.build", ["C15", "C17"] + PIO[1:],
           inlined=["ComposableProducer.__init__/process_file", "NullDisassembler.disassemble"],
           doc="both routes feed the disassembly text to the same parser and consumer")
 def routes():
@@ -494,8 +497,57 @@ def routes():
     obs.append(simple_ob("ComposableProducer.process_file:POST", "jasm.stringify_asm.implementations.composable_producer.ComposableProducer.process_file",
                          "POST", "disassemble(file) once, parse(exactly that text, the consumer) once, finalize once, in this order", okp, P15,
                          detail=repr(log), witness=repr([x[0] for x in log])))
+    # every process_file call disassembles ITS input (same path again -> disassembled again; nothing kept between calls or
+    # between producers), and an input the disassembler rejects is an error of the operation (never "nothing to scan")
+    log.clear()
+    texts = iter(["FIRST", "SECOND", "THIRD"])
+
+    class D2:
+        def disassemble(self, f):
+            log.append(("disassemble", f))
+            return next(texts)
+    PC = J.producer.ComposableProducer
+    p1 = PC(disassembler=D2(), parser=Pz())
+    p1.process_file("same/path.s", cz)
+    p1.process_file("same/path.s", cz)
+    PC(disassembler=D2(), parser=Pz()).process_file("same/path.s", cz)
+    parsed = [x[1] for x in log if x[0] == "parse"]
+    obs.append(simple_ob("ComposableProducer.process_file:FRAME-every-call", "jasm.stringify_asm.implementations.composable_producer.ComposableProducer.process_file",
+                         "FRAME", "three calls on the same path (two producers): three disassemblies, each parse receives the text of its own call",
+                         parsed == ["FIRST", "SECOND", "THIRD"] and len([x for x in log if x[0] == "disassemble"]) == 3, ["C15", "C14"] + PIO[1:],
+                         detail=repr(log)[:300], witness=repr(parsed)))
+    log.clear()
+
+    class D3:
+        def disassemble(self, f):
+            log.append(("disassemble", f))
+            raise FileNotFoundError(f)
+    try:
+        PC(disassembler=D3(), parser=Pz()).process_file("no/such/file*.s", cz)
+        okr, det = False, f"returned normally; calls {log}"
+    except FileNotFoundError:
+        okr, det = [x[0] for x in log] == ["disassemble"], repr(log)
+    except Exception as e:     # noqa
+        okr, det = False, repr(e)
+    obs.append(simple_ob("ComposableProducer.process_file:EXC-propagates", "jasm.stringify_asm.implementations.composable_producer.ComposableProducer.process_file",
+                         "EXC", "the disassembler is asked for exactly the given path and its error ends the operation (nothing is parsed or finalized)",
+                         okr, ["C17", "C15"], detail=det, witness=det[:80]))
     # assembly route returns the file's text unchanged
     with tempfile.TemporaryDirectory() as t:
+        # line ends: a listing written with CRLF (or lone CR) reaches the parser with '\n' line ends, as text files do
+        for nm, raw in (("crlf", b"  10:\t90   \tnop\r\n  11:\tc3 \tret\r\n"), ("lf", b"  10:\t90   \tnop\n  11:\tc3 \tret\n"),
+                        ("utf8", "  10:\t90   \tnop   # caf\u00e9\n".encode("utf-8"))):
+            fpn = os.path.join(t, nm + ".s")
+            open(fpn, "wb").write(raw)
+            try:
+                gotn = J.nulld.NullDisassembler().disassemble(fpn)
+            except Exception as e:     # noqa
+                gotn = repr(e)
+            wantn = raw.decode("utf-8").replace("\r\n", "\n").replace("\r", "\n")
+            o_ = simple_ob(f"NullDisassembler.disassemble:{nm}:POST", "jasm.stringify_asm.implementations.null_disassembler.NullDisassembler.disassemble",
+                           "POST", "returns the file's text (UTF-8, universal newlines: no '\\r' reaches the line parser)", gotn == wantn, PIO,
+                           detail=repr(gotn), witness=nm)
+            obs.append(o_)
         fp = os.path.join(t, "l.s")
         txt = "  10:\t90   \tnop\n\n0000 <f>:\n  11:\tc3 \tret    # é\n"
         open(fp, "w", encoding="utf-8").write(txt)
